@@ -360,7 +360,9 @@ def find_region(path, fn_selector, start_pat, end_pat):
             end_i = code[q]
             break
         if tq.kind == "punct" and tq.text in ")]}":
-            raise LostAnchor("region end statement `%s` is not terminated by `;` in %r" % (end_pat, fn_selector))
+            # the end statement is the tail expression of its block: the region ends right before the closing bracket
+            end_i = code[q - 1]
+            break
         q += 1
     if end_i is None:
         raise LostAnchor("region end statement `%s` has no terminating `;`" % end_pat)
